@@ -71,6 +71,12 @@ def make_cases(tier, seed):
                 add({"kind": "nodes", "method": m, "family": fam, "nR": nR, "nZ": nZ})
                 for fp in (("quad",) if tier == "quick" and (nR, nZ) != sizes[0] else ("quad", "const", "none")):
                     add({"kind": "fd", "method": m, "family": fam, "nR": nR, "nZ": nZ, "fpol": fp, "npts": 60 if tier == "quick" else 200})
+        # the amplitude of psi is arbitrary: weak fields (f = grad psi / |grad psi|^2 becomes large) and large flux units
+        for fam in ("lsn", "poly3", "cosmode"):
+            for amp in (1.0e-5, 1.0e3) if tier == "quick" else (1.0e-7, 1.0e-5, 1.0e-3, 1.0e3):
+                for fp in ("quad", "none"):
+                    add({"kind": "fd", "method": m, "family": fam, "nR": 33, "nZ": 41, "fpol": fp, "amp": amp, "npts": 60 if tier == "quick" else 200})
+                add({"kind": "nodes", "method": m, "family": fam, "nR": 33, "nZ": 41, "amp": amp})
         # ... and through the real TokamakEquilibrium (psi increasing and decreasing outwards, with and without a toroidal field)
         for fam in ("lsn", "cdn", "udn") if tier == "quick" else ("lsn", "usn", "cdn", "udn", "ldn", "lsn_tilt"):
             for (nR, nZ) in [(65, 65), (40, 65)] if tier == "quick" else [(65, 65), (40, 65), (129, 129), (33, 33)]:
@@ -121,7 +127,8 @@ def describe(c):
         return "exact argkind=%s" % c["argkind"]
     if k in ("nodes", "fd"):
         return "%s method=%s eq=%s family=%s n=%dx%d%s" % (k, c["method"], c.get("eq", "stub"), c["family"], c["nR"], c["nZ"],
-                                                          (" fpol=%s" % c.get("fpol") if k == "fd" else "") + (" sign=%d" % c["psi_sign"] if "psi_sign" in c else ""))
+                                                          (" fpol=%s" % c.get("fpol") if k == "fd" else "") + (" sign=%d" % c["psi_sign"] if "psi_sign" in c else "")
+                                                          + (" amp=%g" % c["amp"] if "amp" in c else ""))
     if k == "agree":
         return "agree family=%s n=%dx%d" % (c["family"], c["nR"], c["nZ"])
     return "shape method=%s fn=%s args=%s,%s" % (c["method"], c["fn"], c["a1"], c["a2"])
